@@ -58,8 +58,13 @@ def run(ctx):
     def cellname(evc, tag, s):
         return '%s%s/%s' % (evc.replace('Event', ''), ('[' + tag + ']') if tag else '', s)
 
-    for (evc, tag, s), c in sorted(T.items(), key=lambda x: (x[0][0], x[0][1] or '', x[0][2])):
-        name = cellname(evc, tag, s)
+    def cells():
+        for (evc, tag, s), call in sorted(T.items(), key=lambda x: (x[0][0], x[0][1] or '', x[0][2])):
+            for c in call['variants']:
+                yield (evc, tag, s), c
+
+    for (evc, tag, s), c in cells():
+        name = cellname(evc, tag, s) + (('?' + ','.join(c['choices'])) if c.get('choices') else '')
         tk = tokens(c['actions'])
         if evc == 'AliasEvent':
             r.check(c['raised'] is not None and not tk, '%s: raises (aliases cannot be written as JSON)' % name, key % name, loc,
@@ -120,9 +125,9 @@ def run(ctx):
 
     r = ctx.rule('R07.2', 'indentation is balanced: IND+ exactly in the start cells, IND- exactly in the end cells, same operand',
                  floor=20)
-    for (evc, tag, s), c in sorted(T.items(), key=lambda x: (x[0][0], x[0][1] or '', x[0][2])):
+    for (evc, tag, s), c in cells():
         ind = [a for a in c['actions'] if a[0] == 'IND']
-        name = cellname(evc, tag, s)
+        name = cellname(evc, tag, s) + (('?' + ','.join(c['choices'])) if c.get('choices') else '')
         if evc in ('SequenceStartEvent', 'MappingStartEvent'):
             exp = [('IND', '+', 'best_indent')]
         elif evc == 'SequenceEndEvent' and s in ('SEQUENCE_FIRST', 'SEQUENCE') or evc == 'MappingEndEvent' and s in ('MAPPING_KEY_FIRST', 'MAPPING_KEY'):
